@@ -133,6 +133,7 @@ def ob_pair(w, P):
             except KeyError:
                 res['B'] = 'keyerror'
             res['tB'] = w.times[kb0] if len(w.times) > kb0 else None
+        w.preconnect(other, (w.pid, 2))
         x.begin()
         w.interleave(run_a, run_b, at, at2, id_a=(w.pid, 1), id_b=(w.pid, 2))
         rA = box['rA']
@@ -490,6 +491,7 @@ def ob_pair_seq(w, P):
             conj.append(ret_matches(ops[n][0], res[n], r))
         conj.append(rm.table_eq(T, x.T1))
         alts.append(AndL(conj))
+    w._dbg = (dict(res), dict(tms), admitted)
     x.add('C05,C04', 'results and final state are those of A, B1, B2 one at a time (B1 before B2); a refused call has no effect', OrL(alts))
     x.add('C05,C08', 'counters match afterwards', state.inv_table(x.T1))
     return x.result()
@@ -534,10 +536,20 @@ def ob_il_block(w, P):
                     box['B'] = bool(other.incr(krow + 5, 1) == 2)
             elif opB == 'set':
                 box['B'] = other.set(krow + 5, vb)
+            elif opB == 'block_raise':
+                class _Stop(Exception):
+                    pass
+                try:
+                    with other.transact():
+                        other.set(krow + 5, vb)
+                        raise _Stop()
+                except _Stop:
+                    box['B'] = 'aborted'
         except core.Timeout:
             box['B'] = 'timeout'
     at = x.s.v_int('at', 0, P.get('max_events', 12))
     at2 = x.s.v_int('at2', 0, P.get('max_events', 12))
+    w.preconnect(other, (w.pid, 2) if same_object else (w.pid + 100, 1))
     x.begin()
     il = w.interleave(run_a, run_b, at, at2, id_a=(w.pid, 1), id_b=(w.pid, 2) if same_object else (w.pid + 100, 1))
     x.end()
@@ -548,9 +560,13 @@ def ob_il_block(w, P):
         if box.get(n) == 'timeout':
             flag('timeout_seen')
             x.add('C05,C14,C06', 'client %s is refused only when it asked for the write lock while the other client held it' % n, il.was_blocked[n])
+        elif box.get(n) == 'aborted':
+            flag('block_aborted')
         else:
             x.add('C05', 'client %s succeeded' % n, box.get(n) is True)
     itb = T1.lookup(Cell(INT, krow + 5), Cell(INT, 1))
+    if box.get('B') == 'aborted':
+        x.add('C05,C06', "an aborted block left nothing (and took nothing of the other client's with it)", Not(itb.present))
     if box.get('B') is True:
         x.add('C05,C06', "B's write is there", And(itb.present, EqI(itb.c['value'].cls, INT)))
     elif box.get('B') == 'timeout':
@@ -578,7 +594,7 @@ def jobs(tier):
             out.append(dict(id='pair_file.%s.%s' % (a, b), func='ob_pair_file', params=dict(N=1, a=a, b=b), tags=['C05', 'C01', 'C08'], weight=6, must_reach=['interleaved'],
                             functions=['core.Cache.get', 'core.Cache.pop', 'core.Cache.set', 'core.Cache.delete', 'core.Cache.peekitem', 'core.Disk.fetch', 'core.Disk.store', 'core.Disk.remove']))
     for a in ('setf', 'pop', 'delete'):
-        for b in ('block_set', 'block_incr', 'set'):
+        for b in ('block_set', 'block_incr', 'set', 'block_raise'):
             for who in ('thread', 'handle'):
                 out.append(dict(id='il_block.%s.%s.%s' % (a, b, who), func='ob_il_block', params=dict(N=1, a=a, b=b, who=who), tags=['C05', 'C06', 'C14', 'C08', 'C20'], weight=10,
                                 must_reach=['both_suspended'], functions=['core.Cache._transact', 'core.Cache.transact', 'core.Cache.set', 'core.Cache.pop', 'core.Disk.remove']))
@@ -610,8 +626,8 @@ def jobs(tier):
                 out.append(dict(id='pair.%s.%s.%s.N=%d' % (a, b, who, N), func='ob_pair', params=dict(N=N, a=a, b=b, who=who), tags=['C05', 'C08', 'C14'], weight=N * 4,
                                 must_reach=['interleaved'],
                                 functions=['core.Cache.%s' % {'contains': '__contains__'}.get(f, f) for f in {a, b}] + ['core.Cache._transact']))
-        il_pairs = [('incr', 'incr'), ('set', 'incr'), ('add', 'add'), ('pop', 'pop'), ('add', 'delete'), ('touch', 'set'), ('get', 'set'), ('set', 'get'), ('pop', 'get'), ('incr', 'pop')]
-        for a, b in (il_pairs if N == 1 else il_pairs[:4]):
+        il_pairs = [('delete', 'set'), ('delete', 'incr'), ('incr', 'incr'), ('set', 'incr'), ('add', 'add'), ('pop', 'pop'), ('add', 'delete'), ('touch', 'set'), ('get', 'set'), ('set', 'get'), ('pop', 'get'), ('incr', 'pop')]
+        for a, b in (il_pairs if N == 1 else il_pairs[:6]):
             for who in ('handle', 'thread'):
                 out.append(dict(id='pair_il.%s.%s.%s.N=%d' % (a, b, who, N), func='ob_pair', params=dict(N=N, a=a, b=b, who=who, il=True, max_events=8), tags=['C05', 'C08', 'C14'], weight=N * 10,
                                 must_reach=['both_suspended'], functions=['core.Cache.%s' % f for f in {a, b}] + ['core.Cache._transact']))
